@@ -37,7 +37,7 @@ plan('C07',
           '(judged when its names are well-formed); non-trivial = contains < or &; distinct = hash of the bytes. trunc: every prefix of generated documents of up to ~300 bytes. '
           'surplus / deep are strata for two defects: "</>" with nothing open (the byte sequence "</>" is broken up in all other modes) and nesting of 200..300000 levels; distinct = hash of bytes / (depth, form)',
      jobs=[
-         FuzzJob('fz_xml', quick=150000, thorough=6000000, procs=(4, 12), max_len=400, dict_file='harness/fuzz/xml.dict'),
+         FuzzJob('fz_xml', quick=150000, thorough=2000000, procs=(4, 12), max_len=400, dict_file='harness/fuzz/xml.dict'),
          Job('c07_xml', 'roundtrip', 'asan', quick=9000, thorough=140000, shards=(8, 16)),
          Job('c07_xml', 'roundtrip', 'plain', quick=24000, thorough=280000, shards=(4, 8)),
          Job('c07_xml', 'parents', 'asan', quick=22000, thorough=400000, shards=(6, 16)),
